@@ -84,6 +84,15 @@ def renderDenom : Denom → String
 
 def renderMembers (l : List (Addr × Nat)) : String := joinC (l.map fun p => s!"{p.1}:{p.2}")
 
+/-- A changelog in ascending height order. -/
+def sortLog (l : Log Nat) : List (Nat × Option Nat) :=
+  l.mergeSort (fun a b => decide (a.1 ≤ b.1))
+
+open Paginate in
+/-- Raw dump of the `MEMBERS` changelog: `addr@height:old`, by address then height. -/
+def renderMapLog (log : AMap Addr (Log Nat)) : String :=
+  joinC ((sortedEntries strLt log).flatMap fun (a, l) => (sortLog l).map fun e => s!"{a}@{e.1}:{optNatStr e.2}")
+
 open Paginate in
 def obsOf (m : MState) : Args :=
   match m.w with
@@ -107,7 +116,64 @@ def obsOf (m : MState) : Args :=
      ("rawtotal", toString s.total),
      ("held", toString w.held),
      ("bal", joinC (m.pool.map fun a => s!"{a}:{balOf w a}")),
-     ("fheld", "0")]
+     ("fheld", "0"),
+     -- raw reads: the stored configuration, the recorded heights, the MEMBERS changelog
+     ("cfg", s!"{s.cfg.tokensPerWeight}/{s.cfg.minBond}/{s.cfg.period.render}"),
+     ("hs", joinC (m.heights.map toString)),
+     ("mlog", renderMapLog s.members.log)]
+
+/-! ## Re-synchronisation -/
+
+def optNatOf (s : String) : Option Nat := if s == "-" then none else s.toNat?
+
+/-- `addr@h:old` -/
+def parseMlog (e : String) : Option (String × Nat × Option Nat) :=
+  match e.splitOn "@" with
+  | [a, r] =>
+    match r.splitOn ":" with
+    | [h, o] => h.toNat?.map fun h => (a, h, optNatOf o)
+    | _ => none
+  | _ => none
+
+def parseDenom (s : String) : Option Denom :=
+  if s.startsWith "native:" then some (.native (s.drop 7).toString)
+  else if s.startsWith "cw20:" then some (.cw20 (s.drop 5).toString)
+  else none
+
+def parseClaimList (cl : String) : List Claim :=
+  (if cl == "" then [] else cl.splitOn "+").filterMap fun e =>
+    match e.splitOn "@" with
+    | [amt, exp] => match amt.toNat?, parseExp exp with
+      | some a, some x => some ⟨a, x⟩
+      | _, _ => none
+    | _ => none
+
+/-- Everything the contract stores is in the observation: configuration (`denom`, `cfg`: raw read), admin,
+hooks, stakes and claims of the pool (only pool actors can bond), the member listing, the raw total, the
+MEMBERS changelog (`mlog`: raw dump), the token balances of the contract and of the pool, the recorded
+heights (`hs`).  Kept: block, header data, the ghost `extra`, the accepting hook contracts. -/
+def resyncOf (m : MState) (o : Args) : Option MState :=
+  if (o.get "uninit").isSome then some { m with w := none, heights := [] } else do
+  let denom ← parseDenom (o.str "denom")
+  let cfg ← match (o.str "cfg").splitOn "/" with
+    | [t, b, p] => do
+      let t ← t.toNat?; let b ← b.toNat?; let p ← parseDur p
+      pure ({ denom, tokensPerWeight := t, minBond := b, period := p } : Config)
+    | _ => none
+  let total ← (o.str "rawtotal").toNat?
+  let held ← (o.str "held").toNat?
+  let pairs (f : String) : AMap Addr Nat := (o.list f).foldl (fun acc e => let p := parsePair e; acc.set p.1 p.2) []
+  let claims : AMap Addr (List Claim) := (o.list "claims").foldl (fun acc e =>
+    match e.splitOn ":" with
+    | [a, cl] => acc.set a (parseClaimList cl)
+    | _ => acc) []
+  let mlog : AMap Addr (Log Nat) := ((o.list "mlog").filterMap parseMlog).foldl (fun acc (a, h, old) =>
+    acc.set a ((h, old) :: (acc.get? a).getD [])) []
+  let st : State := { cfg, admin := o.optStr "admin", hooks := o.list "hooks", stake := pairs "stake", claims,
+                      members := { cur := pairs "members", log := mlog }, total }
+  let extra := match m.w with | some w => w.extra | none => 0
+  pure { m with w := some { st, held, bal := pairs "bal", extra, accepting := m.accepting },
+                heights := (o.list "hs").filterMap String.toNat? }
 
 def err (m : MState) (tag : String) : MState × StepResult := (m, { ok := some false, tag := tag })
 
@@ -436,5 +502,6 @@ def scen : Scen MState Mon where
   monInit h :=
     { blk := ⟨h.nat "height", h.nat "time"⟩, pool := h.list "pool", token := h.str "token", sdenom := h.str "sdenom" }
   monitor := monitorOp
+  resync := some resyncOf
 
 end CwPlus.Driver.Cw4Stake
